@@ -162,8 +162,8 @@ theorem refDecEffect_keeps {w w' : World} {o : Nat} {b : Bool}
   · cases h
   · split at h <;> (cases h; exact notifyKept_set _ (by intro s; rw [hm]; simp))
 
-theorem branch_keeps {w w' : World} {o : Nat} {a : Action} {blk : Bool}
-    (h : w.branch o a blk = .ok w') : NotifyKept w.exec.objs w'.exec.objs :=
+theorem branch_keeps {w w' : World} {o : Nat} {a : Action} {blk wt : Bool}
+    (h : w.branch o a blk wt = .ok w') : NotifyKept w.exec.objs w'.exec.objs :=
   .of_touched (branch_objs h)
 
 theorem yieldNow_keeps {w w' : World} (h : w.yieldNow = .ok w') :
@@ -171,6 +171,9 @@ theorem yieldNow_keeps {w w' : World} (h : w.yieldNow = .ok w') :
 
 theorem parkNow_keeps {w w' : World} (h : w.parkNow = .ok w') :
     NotifyKept w.exec.objs w'.exec.objs := .of_touched (parkNow_objs h)
+
+theorem blockNow_keeps {w w' : World} (h : w.blockNow = .ok w') :
+    NotifyKept w.exec.objs w'.exec.objs := .of_touched (blockNow_objs h)
 
 theorem threadDone_keeps {w w' : World} (h : w.threadDone = .ok w') :
     NotifyKept w.exec.objs w'.exec.objs := .of_touched (threadDone_objs h)
@@ -338,7 +341,7 @@ theorem runOp_flags {w w' : World} {c : TCtl} {op : Op} (hop : lockOrWaitNotNoti
       have k1 : NotifyKept w.exec.objs (w.setObj (w.cvObj vi)
           (.condvar { s with waiters := s.waiters ++ [w.tid] })).exec.objs :=
         notifyKept_set _ (by intro t; rw [hs]; simp)
-      have k3 : NotifyKept w2.exec.objs w'.exec.objs := @parkNow_keeps (w2.setStage 2) w' h
+      have k3 : NotifyKept w2.exec.objs w'.exec.objs := @blockNow_keeps (w2.setStage 2) w' h
       exact .of_kept (k1.trans ((releaseLock_keeps h2).trans k3))
     · obtain ⟨m, _, h⟩ := bind_ok h
       (have k := branch_keeps h; exact .of_kept k)
